@@ -42,7 +42,7 @@ pub struct BusInner {
     pub rate: u64,
     pub trace: Vec<TxRecord>,
     /// per node: bytes in flight (arrival_ns, byte)
-    rx: Vec<VecDeque<(i64, u8)>>,
+    rx: Vec<VecDeque<(i64, u8, usize)>>,
     /// per node: bytes that have arrived and were not consumed yet
     buf: Vec<Vec<u8>>,
     /// per node: total number of bytes that ever arrived in `buf`
@@ -107,7 +107,7 @@ impl BusInner {
         // Overlap with transmissions still in progress: garble both for everybody else.
         if overlapped {
             for q in self.rx.iter_mut() {
-                for (arr, b) in q.iter_mut() {
+                for (arr, b, _) in q.iter_mut() {
                     if *arr > start_ns {
                         *b = b.wrapping_mul(31).wrapping_add(0x55) | 0x01;
                     }
@@ -139,7 +139,7 @@ impl BusInner {
             }
             for r in 0..self.rx.len() {
                 if r != id {
-                    self.rx[r].push_back((arr, v));
+                    self.rx[r].push_back((arr, v, id));
                 }
             }
         }
@@ -156,7 +156,7 @@ impl BusInner {
 
     fn pump(&mut self, id: usize, now_us: i64) {
         let now_ns = now_us * 1000;
-        while let Some((arr, byte)) = self.rx[id].front().copied() {
+        while let Some((arr, byte, _)) = self.rx[id].front().copied() {
             if arr <= now_ns {
                 self.rx[id].pop_front();
                 let deaf = self.half_duplex
@@ -204,8 +204,25 @@ impl Bus {
     pub fn clear_rx(&self, id: usize, now_us: i64) {
         let mut b = self.0.borrow_mut();
         let now_ns = now_us * 1000;
-        b.rx[id].retain(|(arr, _)| *arr > now_ns);
+        b.rx[id].retain(|(arr, _, _)| *arr > now_ns);
         b.buf[id].clear();
+    }
+    /// The transmitter of node `id` dies at `now`: bytes that have not left yet never arrive.
+    pub fn cut_transmission(&self, id: usize, now_us: i64) {
+        let mut b = self.0.borrow_mut();
+        let now_ns = now_us * 1000;
+        for q in b.rx.iter_mut() {
+            q.retain(|(arr, _, s)| !(*s == id && *arr > now_ns));
+        }
+        if b.tx_end_ns[id] > now_ns {
+            b.tx_end_ns[id] = now_ns;
+            if let Some(r) = b.trace.iter_mut().rev().find(|r| r.sender == id) {
+                if r.end_ns > now_ns {
+                    r.end_ns = now_ns;
+                    r.faulted = true;
+                }
+            }
+        }
     }
     pub fn trace_len(&self) -> usize {
         self.0.borrow().trace.len()
